@@ -252,8 +252,8 @@ func oracle(ops, outs []string) *corr.Violation {
 					mk("frame", fmt.Sprintf("op %d %q changed records outside the provider: %v", i, op, ex))
 				}
 			}
-			if !okEffect && w[0] == "shutdown" {
-				disabledBy[key] = "shutdown" // the call was authorised and answered success: the property's premise holds
+			if !okEffect {
+				disabledBy[key] = w[0] // the call was authorised and answered success: the property's premise holds
 			}
 		}
 	}
